@@ -24,7 +24,7 @@ def main():
     res = {"dir": d, "properties": props}
     try:
         sh(["git", "-C", "/repo", "worktree", "add", "-q", "--detach", wt, "HEAD"])
-        env = dict(os.environ, SNAX_REPO=wt, PYTHONPATH="/tmp/agent_env")
+        env = dict(os.environ, SNAX_REPO=wt, PYTHONPATH=os.path.join(ROOT, "seeded") + ":/tmp/agent_env")
         demo = os.path.join(d, "demo.py")
         r0 = sh(["/venv/bin/python", demo], env=env, cwd=d, timeout=600)
         res["demo_clean_exit"] = r0.returncode
